@@ -8,7 +8,7 @@ the full class dispatch; calls whose domain is narrower than the specification
 """
 import ast
 
-from ..astutil import body_raises, call_simple_name, dotted, guard_chain, names_in, short
+from ..astutil import body_raises, call_simple_name, dotted, guard_chain, names_in, pm, pmall, short
 from ..callgraph import EXACT, get_callgraph
 from ..cfg import ReachingDefs, call_name, cfg_of, node_calls
 from ..loader import AnalysisError, ClassInfo, FunctionInfo, body_walk, norm, walk_no_nested
@@ -110,8 +110,8 @@ def rule_clean_arity(ctx):
     run.extra["interoperability_types"] = [c.name for c in interop]
     # how _check_property builds the argument list: [value, allow_custom] (+ interoperability for the listed classes)
     txt = norm(chk.node)
-    if "arguments = [kwargs[prop_name], allow_custom]" not in txt or "arguments.append(interoperability)" not in txt \
-            or "prop.clean(*arguments)" not in txt:
+    kp, np_, pp = chk.params[3], chk.params[1], chk.params[2]
+    if pmall(txt, "$a = [%s[%s], allow_custom]" % (kp, np_), "$a.append(interoperability)", "%s.clean(*$a)" % pp) is None:
         raise AnalysisError("_check_property changed shape: update C03.clean-arity dispatcher model")
 
     def clean_of(c, fixed=False):
